@@ -226,8 +226,8 @@ Op random_op(sim::Rng &r, Prof prof, const std::vector<bool> &en) {
     // mostly the base grid (shared storage) or an equal copy; foreign grids by profile
     uint32_t x = r.below(100);
     uint32_t foreign_pct = prof == PROF_XGRID ? 45 : prof == PROF_HIST ? 25 : 12;
-    if (x < foreign_pct) o.b = 2 + r.below(N_GRID_VARIANTS - 2);
-    else if (x < foreign_pct + 25) o.b = 1;
+    if (x < foreign_pct) o.b = 2 + r.below(7);
+    else if (x < foreign_pct + 25) o.b = r.below(4) ? 1 : 9;
     else o.b = 0;
   }
   return o;
@@ -274,9 +274,9 @@ Plan make_plan(const Profile &prof, uint64_t seed) {
     if (r.below(8) == 0) en[k] = false;
 
   // ---- shared pool
-  uint32_t foreign = 2 + r.below(N_GRID_VARIANTS - 2);
+  uint32_t foreign = 2 + r.below(7);
   p.setup.push_back(mk(OP_G_NEW, 0, 0, 0, r.below(3)));
-  p.setup.push_back(mk(OP_G_NEW, 1, 1, 0, r.below(3)));
+  p.setup.push_back(mk(OP_G_NEW, 1, r.below(4) ? 1 : 9, 0, r.below(3)));
   p.setup.push_back(mk(OP_G_NEW, 2, pf == PROF_CONC && r.below(3) ? 1 : foreign, r.below(16), r.below(3)));
   p.setup.push_back(mk(OP_S_WHOLE, 0, 0));
   p.setup.push_back(mk(OP_S_NEW, 1, 0, r.below(64), r.below(64)));
